@@ -245,3 +245,24 @@ Proof.
   cbn [all_return s_ret]. rewrite IH, andb_true_r.
   destruct a; try discriminate R; try reflexivity.
 Qed.
+
+(* ---------- Remove / Clear forget the id ---------- *)
+
+Lemma adel_gone (id : N) : forall m : list (N * pack), existsb (N.eqb id) (map fst (proj_map (adel id m))) = false.
+Proof.
+  unfold proj_map. induction m as [|[k v] m IH]; [reflexivity|]. cbn [adel].
+  destruct (N.eqb_spec k id) as [->|D]; [exact IH|].
+  cbn [map fst snd existsb]. rewrite IH.
+  destruct (N.eqb_spec id k); [congruence|reflexivity].
+Qed.
+
+Lemma m_removed_gone_gen e : forall h s, removed_gone h (run_mpure e s h) = true.
+Proof.
+  induction h as [|o r IH]; intros s; [reflexivity|].
+  cbn [run_mpure]. destruct o as [id hash f be|b|id|].
+  - destruct (mstep e s _) as [[s' es] a]. cbn [removed_gone]. apply IH.
+  - destruct (mstep e s _) as [[s' es] a]. cbn [removed_gone]. apply IH.
+  - cbn [mstep removed_gone s_ret s_applied s_pending]. unfold m_papp, m_ppend. cbn [m_applied m_pending].
+    rewrite !adel_gone. cbn [negb andb]. apply IH.
+  - cbn [mstep removed_gone s_ret s_applied s_pending]. apply IH.
+Qed.
